@@ -12,6 +12,7 @@ import pymbolic.parser as parsemod
 
 from ..core import check, short
 from ..gen import expr as G
+from ..gen import scale
 from ..mon.trace import HandlerTrace
 from ..ref import normal, refsem
 
@@ -194,6 +195,45 @@ def c_roundtrip(ctx, case):
                  f"{G.src(e)} prints as {s!r}; the reparsed expression prints as {s2!r}", finding=f2)
 
 
+def _dereference(e):
+    """the tree with every application-defined node replaced by the stock tree it stands for"""
+    import dataclasses
+    if hasattr(e, "vf_reference"):
+        return _dereference(e.vf_reference())
+    if isinstance(e, tuple):
+        return tuple(_dereference(c) for c in e)
+    if isinstance(e, immutabledict):
+        return immutabledict({k: _dereference(v) for k, v in e.items()})
+    if isinstance(e, p.Expression) and dataclasses.is_dataclass(e):
+        return type(e)(*[_dereference(getattr(e, f.name)) for f in dataclasses.fields(e)])
+    return e
+
+
+@check("C06.hook")
+def c_hook(ctx, case):
+    """A node type the stock printer does not know brings its own printer (the documented
+    make_stringifier hook); the stock printer hands it the enclosing precedence, so that the
+    text of the whole tree still parses to the tree's meaning."""
+    (e,) = case
+    ctx.case(None)
+    ctx.count("hook_roundtrips")
+    try:
+        s = str(e)
+        e2 = parse(s)
+    except RecursionError:
+        raise
+    except Exception as ex:  # noqa: BLE001
+        ctx.fail("C06.hook", case, f"raised:{type(ex).__name__}",
+                 f"printing / re-parsing {G.src(e)} raised {type(ex).__name__}: {ex}")
+        return
+    want = _dereference(e)
+    if normal.ac_key(e2) != normal.ac_key(want) \
+            and regroup_key(unwrap_indices(e2)) != regroup_key(unwrap_indices(want)):
+        ctx.fail("C06.hook", case, f"tree:{type(e).__name__}",
+                 f"{G.src(e)} (an application-defined node with its own printer inside) prints "
+                 f"as {s!r}, which parses to {G.src(e2)}; it stands for {G.src(want)}")
+
+
 def _plainnum(x):
     import numpy as np
     if isinstance(x, np.bool_):
@@ -353,6 +393,55 @@ def workload(ctx):
                             ctx.count("three_level")
                             ctx.run("C06.roundtrip", (e,))
         ctx.set_exhaustive("three-level nestings over the reduced alphabet", stride == 1)
+        # scale: nodes of 9 .. 130 operands with ONE operand of every kind at the first, a
+        # middle and the last position (the printer's per-operand parenthesis rules past any
+        # fast path for wide nodes); long names; constants past 2**63
+        wide_mk = {"sum": lambda c: p.Sum(c), "prod": lambda c: p.Product(c),
+                   "bor": lambda c: p.BitwiseOr(c), "bxor": lambda c: p.BitwiseXor(c),
+                   "band": lambda c: p.BitwiseAnd(c), "lor": lambda c: p.LogicalOr(c),
+                   "land": lambda c: p.LogicalAnd(c), "call": lambda c: p.Call(F_, c),
+                   "subt": lambda c: p.Subscript(A, c), "tupcall": lambda c: p.Call(F_, (c, A))}
+        widths = [9, 17, 33, 66] if not ctx.thorough else scale.WIDTHS
+        for w in widths:
+            vs = scale.variables(w)
+            for pk, mk in wide_mk.items():
+                for child in [k for k in children_kinds if k in REDUCED or k in ATOMS]:
+                    for pos in (0, w // 2, w - 1):
+                        if not ctx.mine("wide"):
+                            continue
+                        kids = list(vs)
+                        kids[pos] = leafy(child)
+                        e = mk(tuple(kids))
+                        ctx.case(("wide", pk, child, pos, w), True, n=0)
+                        ctx.count("wide_nodes")
+                        ctx.run("C06.roundtrip", (e,))
+        for n_ in scale.NAME_LENGTHS:
+            nm = scale.name(rng, n_)
+            for e in (p.Sum((p.Variable(nm), 1)), p.Call(p.Variable(nm), (p.Variable(nm + "_2"),)),
+                      p.Lookup(A, nm), p.CallWithKwargs(F_, (), immutabledict({nm: B})),
+                      p.Product((scale.big(rng), p.Variable(nm))),
+                      p.Power(p.Variable(nm), scale.big(rng, False))):
+                if ctx.mine("names"):
+                    ctx.case(normal.typed_key(e), True, n=0)
+                    ctx.count("long_names_and_big_constants")
+                    ctx.run("C06.roundtrip", (e,))
+        # an application-defined node with its own printer in every (parent, position)
+        from .. import usertypes as U
+        for parent in kinds:
+            arity = NODES[parent][0]
+            if parent in ("callfn", "subagg", "look", "subt0"):
+                continue        # (subt0: a[()] prints as a[] -- the recorded finding)
+            for pos in range(arity):
+                for ub in (U.UBiased(A, B), U.UBiased(p.Product((A, 2)), -1),
+                           U.UBiased(U.UBiased(A, 1), B)):
+                    if not ctx.mine("hook"):
+                        continue
+                    kids = [FILL[i] for i in range(arity)]
+                    kids[pos] = ub
+                    e = build(parent, kids)
+                    ctx.case(("hook", parent, pos, normal.typed_key(_dereference(ub))), True, n=0)
+                    ctx.run("C06.hook", (e,))
+                    ctx.run("C06.hook", (p.Product((C, p.Power(e, 2))),))
         # random deep trees
         for i in range(ctx.per_shard(ctx.pick(4000, 80000))):
             e = rand_tree(rng, rng.randint(2, ctx.pick(5, 7)), ctx.hist)
@@ -383,6 +472,9 @@ def workload(ctx):
             ctx.run("C06.reuse", ((ctx.seed, ctx.shard, i), 60))
         for k, v in tr.handlers().items():
             ctx.count("handler:" + k, v)
+    ctx.floor("wide_nodes", 2000)
+    ctx.floor("hook_roundtrips", 300)
+    ctx.floor("long_names_and_big_constants", 60)
     ctx.floor("reused_printer_calls", 500)
     ctx.floor("numpy_constant_roundtrips", 200)
     ctx.floor("slice_patterns", 60)
